@@ -16,7 +16,7 @@ VARIABLES c, ok
 SeqsUpTo(S, k) == UNION {[1..j -> S] : j \in 0..k}
 TriSet(nv) == {<<a, b, d>> : a, b, d \in 0..nv}      \* corner value nv is out of range for a map of size nv
 SmallMaps == UNION {{CollapseMap(I, n) : I \in SubsetSeqs(0..(n - 1))} : n \in 0..N}
-               \cup SeqsUpTo({-1, 0, 1}, 2)            \* arbitrary (non-collapse) maps too
+               \cup SeqsUpTo({-2, -1, 0, 1}, 2)        \* arbitrary (non-collapse) maps too: any negative entry means "removed"
 
 Cases ==
     CASE Family = "erase" ->
